@@ -250,7 +250,7 @@ ADDED_RULES = {
     'C08': 'R-WAKE (Submit notifies after enqueue; stop is followed by notify_all; a worker sleeps only after re-testing queue and stop under the lock), R-FIFO, R-JOINALL, R-LISTSPEC (detail::List against its sequence specification by abstract interpretation over an explicit heap). R-STOPFINAL (the stopped state is final whatever its representation).',
     'C09': 'R-LOOPCALLER, R-MOVEOUT.site on the strategies; R-POLICYFWD (every instantiation parameterised by a FailPolicy hands the same policy to each callee parameterised by one: entry point -> when::When -> strategy). R-OUTCOME (every Promise::Set hands on an accessor of the consumed Result or the collected values). R-INDEX (ordered static combinators: input I registers the callback carrying index I). R-MOVEOUT.site also covers SharedCore::Retire / UniqueCore::Retire. R-ONENODE, R-HANDOFF (shared with C06 / C04).',
     'C10': 'R-LOOPCALLER, R-MOVEOUT.site on the strategies; R-POLICYFWD (same rule on the WhenAny family). R-FORWARD (a wrapper hands an input back as the output outside the strategy only for count == 1 or a Ready input that, policy None, completed / otherwise holds a value). R-OUTCOME, R-FIRSTVALUE (Any<FirstFail>: a value wins iff no value won before). R-MOVEOUT.site also covers SharedCore::Retire / UniqueCore::Retire (the move-out the strategies reach through the virtual call). R-ONENODE, R-HANDOFF (shared with C06 / C04).',
-    'C11': 'R-EVENTCALLBACK (the registered callback counts exactly one unit per completing future and leaves it alone; the shared-input helper forwards). R-DEADLINE (every WaitUntil form hands the caller\'s time_point, unchanged, down to the blocking primitive: no conversion to a duration and no arithmetic on the way).',
+    'C11': 'R-EVENTCALLBACK (the registered callback counts exactly one unit per completing future and leaves it alone; the shared-input helper forwards). R-DEADLINE (every WaitUntil form hands the caller\'s time_point, unchanged, down to the blocking primitive: no conversion to a duration and no arithmetic on the way). R-WAITFORMS (every public wait overload hands the wait core exactly the futures it was given and returns its answer as is; the single-future shortcut only under count == 1).',
     'C12': 'R-ROUTE.drop (a cancelled head stores StopTag on every path of Drop()). R-HANDLEMOVE (shared with C03). R-ATTACHFORM on the Task forms (the lazy form agrees with its eager sibling), R-GETWAIT on Task::Get; R-START recognises binding through a helper of the core.',
     'C13': 'R-RESUME.executor (every PromiseType::Impl instantiation takes the resuming core\'s executor on every path). R-MOVEOUT.site on the coroutine awaiters. R-PROMISE (initial_suspend / unhandled_exception / return_value / await_resume forms per PromiseType instantiation). R-AWAITEVENT (multi-future Await resumes exactly once, by the last completion; awaited futures left alone; sticky forms resume through Submit). R-AWAITERFORM (scheduling awaiters: a path of await_suspend that stays suspended has handed the coroutine on, one returning false has not; await_ready constant false for pure executor switches). R-ONEXEC (an executor-naming awaiter resumes the coroutine through that executor on every path: await_suspend never answers do-not-suspend, helpers followed).',
     'C14': 'R-GUARDSTATE (every GuardState member follows its row of the ownership table: summaries evaluated on {null,P,Q} x {owns,not}), R-GUARDCALLS (mode of every call from a guard into its mutex, state transition first, TryLock resets on failure, Release never unlocks), R-CASFRESH. R-SHAPE with order: GetHead<FIFO=true> returns a chain running from the oldest waiter to the newest. R-SHAPE on the grant paths UnlockHereAwait / AwaitUnlockOn (the waiter handed on is the oldest of the detached batch, the rest is parked oldest first under FIFO). R-LOCKAPI (guards built after an acquisition adopt, TryGuard tries; an unlock awaiter that reports ready has released the lock exactly once on that path; lock awaiters call the entry points of their mode).',
